@@ -49,7 +49,11 @@ Record parsed := mkParsed {
                         address, size <= MaxSize: ParseMessage and ValidateMessage pass *)
   p_spam : bool;     (* isSpamByHeaders *)
   p_hdrs : nat;      (* len(extractAllHeaders(raw)) *)
-  p_shape : shape
+  p_shape : shape;
+  p_big : nat;       (* part rows stored OUT OF LINE: a file name, or more than 1024 octets *)
+  p_blob_fail : bool (* environment, not message: writes to shared.db's blobs table fail while this
+                        message is stored (another connection holds the write lock longer than the
+                        busy timeout, I/O fault); reads of shared.db and the per-user store work *)
 }.
 
 (** number of message_parts rows ParseMIMEMessage produces; [None] = error *)
@@ -64,7 +68,27 @@ Definition parts_of (sh : shape) : option nat :=
 
 (** ---- a store with its table of messages --------------------------------------- *)
 
-Record msgrec := mkMsg { m_id : Z; m_hdrs : nat; m_parts : nat }.
+(** where the octets of an out-of-line part end up.  StoreMessagePerUserWithSharedDBAndS3:
+    "id, err = db.StoreBlobWithEncoding(...); if err == nil { blobID = id; part.TextContent = "" }"
+    — the inline copy is cleared only AFTER the blob row is known to exist, so a failed blob
+    write leaves the part inline (the deliberate fallback).  [clear_first = true] is the
+    variant that clears before knowing (seeded C01-3): the octets are nowhere. *)
+Inductive place := InBlob | Inline | Lost.
+Definition store_part (clear_first blob_ok : bool) : place :=
+  if blob_ok then InBlob else if clear_first then Lost else Inline.
+
+(** a row of [messages] with its rows of message_headers / message_parts: how many
+    header rows, part rows, part rows read from a blob, part rows whose octets are
+    neither inline nor in a blob *)
+Record msgrec := mkMsgL { m_id : Z; m_hdrs : nat; m_parts : nat; m_blob : nat; m_lost : nat }.
+
+Definition stored_rec_gen (clear_first : bool) (id : Z) (p : parsed) (np : nat) : msgrec :=
+  let pl := store_part clear_first (negb (p_blob_fail p)) in
+  mkMsgL id (p_hdrs p) np
+         (match pl with InBlob => p_big p | _ => 0%nat end)
+         (match pl with Lost => p_big p | _ => 0%nat end).
+(** what the tree writes *)
+Definition stored_rec : Z -> parsed -> nat -> msgrec := stored_rec_gen false.
 
 Record ustore := mkU { us : store; umsgs : list msgrec }.
 
@@ -157,7 +181,7 @@ Definition deliver_store (u : ustore) (target : str) (p : parsed) (t : Z) : usto
     | None => (mkU s1 (umsgs u), false)             (* "failed to parse message" *)
     | Some np =>
       let '(s2, msg) := store_message s1 in
-      let msgs' := umsgs u ++ [mkMsg msg (p_hdrs p) np] in
+      let msgs' := umsgs u ++ [stored_rec msg p np] in
       let '(s3, ok) := add_message s2 msg id [] in
       (mkU s3 msgs', ok)                            (* "failed to add message to mailbox" *)
     end
